@@ -58,6 +58,7 @@ func NewClientDID(kp *KeyPool, idx int, rng *rand.Rand, origin interface{}) *Cli
 		UpdateCommitment:   d.Upd.Commitment(d.Code),
 		AnchorOrigin:       origin,
 		MultihashCode:      d.Code,
+		Type:               []string{"", "org", ""}[idx%3], // the optional suffix-data type is part of the suffix
 	})
 	must(err)
 	sfx := suffixOfCreate(req, d.Code)
